@@ -380,11 +380,16 @@ func runC12(c C12Case, o *run.Obs) error {
 		}
 		// Open known findings, keyed to the call site that reports the error:
 		// Insert failing while deciding/performing growth, Delete failing while shrinking.
-		if msg := opErr.Error(); c.Op == "insert" && (strings.HasPrefix(msg, "canGrow:") || strings.HasPrefix(msg, "grow:")) {
+		// Each exclusion also requires the finding's own precondition, computed from the model: Insert enters its growth
+		// phase only on a tree that already holds bf^(height+1) entries; Delete enters its shrink loop only when the
+		// remaining size is at most bf^height or at most one key of the top layer was left.
+		if msg := opErr.Error(); c.Op == "insert" && (strings.HasPrefix(msg, "canGrow:") || strings.HasPrefix(msg, "grow:")) &&
+			uint64(len(pre)) >= powU(uint64(c.Cfg.BF), uint(preHeight)+1) {
 			if o.Excl("insert-grow-failure-not-atomic") {
 				continue
 			}
-		} else if (c.Op == "delete" || c.Op == "deletetop") && strings.HasPrefix(msg, "shrink:") {
+		} else if (c.Op == "delete" || c.Op == "deletetop") && strings.HasPrefix(msg, "shrink:") && preHeight > 0 &&
+			(uint64(len(pre))-1 <= powU(uint64(c.Cfg.BF), uint(preHeight)) || topLayerKeys(e.w, pre, preHeight) <= 1) {
 			if o.Excl("delete-shrink-failure-not-atomic") {
 				continue
 			}
@@ -441,6 +446,28 @@ func init() {
 		Gen:         genC12,
 		Run:         runC12,
 	})
+}
+
+func powU(b uint64, e uint) uint64 {
+	r := uint64(1)
+	for i := uint(0); i < e; i++ {
+		if r > (1<<62)/b {
+			return 1 << 62
+		}
+		r *= b
+	}
+	return r
+}
+
+// topLayerKeys counts the model's keys whose layer is at least h (the keys of the top node of a tree of height h).
+func topLayerKeys(w *core.World, m core.Model, h uint8) int {
+	n := 0
+	for ki := range m {
+		if w.Cfg.RefLayer(w.Pool[ki]) >= h {
+			n++
+		}
+	}
+	return n
 }
 
 func firstLines(s string, n int) string {
